@@ -95,3 +95,20 @@ package lib
 //@   ensures[count] err == nil ==> len(doubleSigners) == bothCount(bytes(x.Bitmap), bytes(y.Bitmap), len(vs.ValidatorSet.ValidatorSet))
 //@   loop 1 invariant[acc] 0 <= iter && iter <= len(vs.ValidatorSet.ValidatorSet) && mpkBitmap(key) == bytes(x.Bitmap) && mpkBitmap(key2) == bytes(y.Bitmap) && len(doubleSigners) == bothCount(bytes(x.Bitmap), bytes(y.Bitmap), iter)
 //@   loop 1 invariant[frame] unchanged(x.Bitmap, y.Bitmap, vs.ValidatorSet.ValidatorSet)
+
+// viewSame: two views denote the same (height, root height, chain, network, round, phase)
+//@ spec func viewSame(a *View, b *View) bool = a.Height == b.Height && a.RootHeight == b.RootHeight && a.ChainId == b.ChainId && a.NetworkId == b.NetworkId && a.Round == b.Round && a.Phase == b.Phase
+
+//@ func (*View).Equals
+//@   pure
+//@   ensures[same] result == (x != nil && v != nil && viewSame(x, v))
+
+// ---- C19/C14: the bytes a certificate's signers sign ----------------------------------------------
+// What is handed to the encoder is the certificate with exactly Results, Block and Signature
+// cleared and every other field as at entry; afterwards the three fields are back in place.
+// signBytesOf(x) names the resulting bytes (the encoder itself is external).
+//@ func (*QuorumCertificate).SignBytes
+//@   modifies obj(x)
+//@   assumed[names] bytes(signBytes) == signBytesOf(x)
+//@   ensures[restores] unchanged(x.Header, x.Block, x.BlockHash, x.ResultsHash, x.Results, x.ProposerKey, x.Signature)
+//@   callsite Marshal requires[stripped] (x.Header != nil && x.Header.Phase == Phase_ELECTION_VOTE) || (x.Results == nil && x.Block == nil && x.Signature == nil && unchanged(x.Header, x.BlockHash, x.ResultsHash, x.ProposerKey))
